@@ -11,10 +11,12 @@ from vlib import *
 from props.c17_craft import *
 
 MODULES = ["JxlModel.Props.C17"]
-NOT_E2E = ("end-to-end JPEG byte-exactness (reconstructed file == original JPEG) is NOT exercised: no "
-           "JPEG->JPEG XL transcoder and no transcoded fixtures exist offline; VarDCT coefficient "
-           "extraction, integer chroma-from-luma and the scan re-encoder's use of the bit writer are "
-           "untested by this check")
+NOT_E2E = ("end-to-end JPEG byte-exactness (reconstructed file == original JPEG) is exercised on synthetic "
+           "transcodes only: harness/src/synth.rs writes baseline 4:4:4 three-component JPEGs (standard Huffman "
+           "tables, sequential scans in four layouts, extra zero runs, recorded padding bits, JFIF / Exif / "
+           "comment segments) with an independent textbook encoder and carries the same coefficients in a VarDCT "
+           "frame of DCT8 blocks with a jbrd box; progressive scans, subsampling, restart intervals, custom "
+           "Huffman tables, larger varblocks and integer chroma-from-luma are NOT covered")
 M64 = (1 << 64) - 1
 CORPUS = os.path.join(VERIF, "corpus", "c17")
 
@@ -679,6 +681,43 @@ def lens_campaign(ctx, ok, n):
                 ctx.failed_obligations.append(f"correspondence expected_*_len vs model differs on {h['app']}: model {model[k]!r} expected {mw!r}")
 
 
+def e2e_campaign(ctx, n):
+    """reconstructed file == original JPEG, byte for byte, on synthetic lossless transcodes (see NOT_E2E
+    for what they cover): the original is written by an independent baseline encoder, the container by
+    a minimal transcoder (both harness/src/synth.rs), `reconstruct_jpeg` by the code under test"""
+    ctx.cargo_build(["c17e"])
+    rng = ctx.rng
+    lines = []
+    for i in range(n):
+        bw, bh = rng.choice([(1, 1), (2, 1), (1, 3), (3, 3), (5, 3), (4, 4), (8, 2), (7, 5), (9, 9), (16, 3)])
+        scans = rng.choice(["i", "i", "s", "s", "m", "r"])
+        pad = rng.choice(["d", "d", "z", "a", "r", "n", "n"])
+        ezr = rng.choice([0, 0, 1, 2, 4, 8])
+        meta = rng.choice(["-", "-", "e", "E", "x", "c", "ec", "ex", "Ex", "ecx"])
+        feed = rng.choice(["w", "w", "1", "7", "64", "333", "4096"]) if bw * bh <= 25 else rng.choice(["w", "64", "4096"])
+        lines.append(f"jpeg {rng.randrange(1, 10 ** 6)} {bw} {bh} {scans} {pad} {ezr} {meta} {feed}")
+    outs = run_lines_robust([ctx.harness_bin("c17e")], lines, per_line_timeout=120)
+    for l, o in zip(lines, outs):
+        w = l.split()
+        o = o or "crash"
+        ctx.case(("e2e", l), nontrivial=True)
+        ctx.count("e2e:scans-" + w[4]); ctx.count("e2e:padding-" + w[5]); ctx.count("e2e:meta-" + w[7])
+        ctx.count("e2e:feed-" + ("whole" if w[8] == "w" else "chunked"))
+        if int(w[6]):
+            ctx.count("e2e:with-extra-zero-runs")
+        rep = {"lines": [l], "impl": [o], "how": "echo '<line>' | harness/target/debug/c17e (spec in harness/src/bin/c17e.rs)"}
+        if o.startswith("ok"):
+            continue
+        if o.startswith("diff"):
+            ctx.violation("reconstructed-jpeg-differs-from-the-original", o, rep, key="c17:e2e-diff")
+        elif o.startswith("status"):
+            ctx.violation("reconstruction-not-available-for-a-complete-transcode", o, rep, key="c17:e2e-status")
+        elif o.startswith("err"):
+            ctx.violation("reconstruction-of-a-valid-transcode-fails", o, rep, key="c17:e2e-" + o.split()[1][:30])
+        else:
+            ctx.violation("reconstruction-panicked-or-hung", o[:200], rep, key="c17:e2e-panic")
+
+
 def run(ctx):
     ctx.assumptions += [
         NOT_E2E,
@@ -718,6 +757,7 @@ def run(ctx):
         "files compared with the Lean status function. A case is non-trivial if it flushed/stuffed (a), is a valid table "
         "with > 2 entries (b), or saw at least two status answers (c); distinct by content. " + NOT_E2E)
     jbrd_campaign(ctx, ok, 14000 * k)        # corpus (past failures, design-probe witnesses) runs first
+    e2e_campaign(ctx, 160 * k)
     lens_campaign(ctx, ok, 500 * k)
     bw_campaign(ctx, ok, 5000 * k)
     ff_campaign(ctx, ok, 5000 * k)
